@@ -20,6 +20,9 @@ pub enum Edit {
 #[derive(Clone, Debug, Serialize, Deserialize)]
 pub struct Case {
     pub hist: History,
+    /// aim the edit at the text of the k-th annotation that selects text (position = offset inside its first selection)
+    #[serde(default)]
+    pub aim: Option<u16>,
     /// 0 checksum, 1 text, 2 both, 3 auto
     pub mode: u8,
     pub edit: Edit,
@@ -76,8 +79,21 @@ impl Property for C18 {
             2 => (any::<u16>(), any::<u16>(), text_strategy(3)).prop_map(|(res, pos, what)| Edit::Insert { res, pos, what }),
             2 => (any::<u16>(), any::<u16>(), 1u8..4).prop_map(|(res, pos, len)| Edit::Delete { res, pos, len }),
         ];
-        (history_strategy(cfg), 0u8..4, edit, proptest::bool::weighted(0.3))
-            .prop_map(|(hist, mode, edit, cbor)| Case { hist, mode, edit, cbor })
+        // make sure several annotations select non-empty text: a few plain text annotations are appended
+        let extra = proptest::collection::vec((any::<u16>(), 0u16..40000, 8000u16..=u16::MAX, any::<bool>(), any::<bool>()), 1..=4);
+        (history_strategy(cfg), 0u8..4, edit, proptest::bool::weighted(0.3), proptest::option::weighted(0.75, any::<u16>()), extra)
+            .prop_map(|(mut hist, mode, edit, cbor, aim, extra)| {
+                for (res, b, e, b_end, e_end) in extra {
+                    hist.ops.push(Op::Annotate {
+                        with_id: false,
+                        sfx: 0,
+                        by_handle: false,
+                        target: SelSpec::Text { res, off: OffSpec { b, e, b_end, e_end } },
+                        data: vec![],
+                    });
+                }
+                Case { hist, aim, mode, edit, cbor }
+            })
             .boxed()
     }
 
@@ -190,12 +206,29 @@ impl Property for C18 {
         if nres == 0 {
             return out;
         }
-        let (ri, kind) = match &case.edit {
+        let (mut ri, kind) = match &case.edit {
             Edit::Substitute { res, .. } => (pick(*res, nres), "substitute"),
             Edit::Insert { res, .. } => (pick(*res, nres), "insert"),
             Edit::Delete { res, .. } => (pick(*res, nres), "delete"),
         };
         out.label(kind);
+        // aimed edits: inside the first selection of a text-selecting annotation
+        let mut aimed: Option<(usize, usize)> = None;
+        if let Some(k) = case.aim {
+            let cands: Vec<(usize, usize, usize)> = store
+                .annotations()
+                .filter_map(|a| a.textselections().next().map(|t| (t.resource().handle().as_usize(), t.begin(), t.end())))
+                .filter(|(_, b, e)| e > b)
+                .collect();
+            if !cands.is_empty() {
+                let (rh, b, e) = cands[pick(k, cands.len())];
+                if let Some(ord) = store.resources().position(|r| r.handle().as_usize() == rh) {
+                    ri = ord;
+                    aimed = Some((b, e));
+                    out.label("aimed_edit");
+                }
+            }
+        }
         let old: Vec<char> = doc["resources"][ri]["text"].as_str().unwrap_or("").chars().collect();
         let mut new = old.clone();
         match &case.edit {
@@ -203,11 +236,17 @@ impl Property for C18 {
                 if old.is_empty() {
                     return out;
                 }
-                let p = pick(*pos, old.len());
+                let p = match aimed {
+                    Some((b, e)) => b + pick(*pos, e - b),
+                    None => pick(*pos, old.len()),
+                };
                 new[p] = if old[p] == *with { '#' } else { *with };
             }
             Edit::Insert { pos, what, .. } => {
-                let p = pick(*pos, old.len() + 1);
+                let p = match aimed {
+                    Some((b, e)) => b + pick(*pos, e - b + 1),
+                    None => pick(*pos, old.len() + 1),
+                };
                 let w: Vec<char> = if what.is_empty() { vec!['+'] } else { what.chars().collect() };
                 for (k, c) in w.into_iter().enumerate() {
                     new.insert(p + k, c);
@@ -217,7 +256,10 @@ impl Property for C18 {
                 if old.is_empty() {
                     return out;
                 }
-                let p = pick(*pos, old.len());
+                let p = match aimed {
+                    Some((b, e)) => b + pick(*pos, e - b),
+                    None => pick(*pos, old.len()),
+                };
                 let l = (*len as usize).min(old.len() - p);
                 new.drain(p..p + l);
             }
